@@ -16,7 +16,7 @@ from vmon.oracles import so3
 
 N_MAX = 64              # quantifier: every n in 1..64
 PARTICLES_MAX = 100     # quantifier: 1..100 particles
-POS_MAX = 1e7           # positions beyond this are not generated and not judged (integrality needs |pos| << 2**52)
+POS_MAX = 1e10          # positions beyond this are not generated and not judged (integrality needs |pos| << 2**52)
 TOL_R = 1e-6            # entry-wise, orientation read back from zxz Euler angles (see ASSUMPTIONS in props/c10.py)
 INHERITED = ["score", "geom1", "tomo_id", "object_id", "subtomo_mean", "geom3", "geom4", "class"]
 ALL_COLS = ["score", "geom1", "geom2", "subtomo_id", "tomo_id", "object_id", "subtomo_mean", "x", "y", "z",
